@@ -294,10 +294,13 @@ theorem nodup_lowerKeys (m : PMap) (h : (m.map fun kv => lower kv.1).Nodup) : ((
   rw [List.map_map]
   exact h
 
-theorem parsePerms_wf (r : SrcRule) (caps : List String) (p : Perms) (h : parsePerms r caps = .ok p)
-    (hmin : 0 ≤ r.minTTL.getD 0) (hmax : 0 ≤ r.maxTTL.getD 0)
-    (hka : ((r.allowed.getD []).map fun kv => lower kv.1).Nodup)
-    (hkd : ((r.denied.getD []).map fun kv => lower kv.1).Nodup) : WF p := by
+theorem hasDupLower_false_iff (m : PMap) : hasDupLower m = false ↔ (m.map fun kv => lower kv.1).Nodup := by
+  unfold hasDupLower
+  simp
+
+/-- what `parsePaths` accepts is well-formed: `deny` stands alone, parameter names are distinct (F21 repaired),
+wrapping-TTL bounds are not negative (F19 repaired) -/
+theorem parsePerms_wf (r : SrcRule) (caps : List String) (p : Perms) (h : parsePerms r caps = .ok p) : WF p := by
   unfold parsePerms at h
   cases hc : capLoop caps 0 with
   | error e => rw [hc] at h; simp at h
@@ -310,24 +313,31 @@ theorem parsePerms_wf (r : SrcRule) (caps : List String) (p : Perms) (h : parseP
       exact ⟨fun _ => rfl, by simp, by simp, by simp, by simp⟩
     | some bits =>
       simp only at h
-      split at h
-      · simp at h
-      · simp only [Except.ok.injEq] at h
-        subst h
-        have hb := capLoop_no_deny caps 0 bits hc (by decide)
-        refine ⟨?_, nodup_lowerKeys _ hka, nodup_lowerKeys _ hkd, hmin, hmax⟩
-        intro hd
-        unfold isDeny at hd
-        simp only at hd
-        rw [hb] at hd
-        exact absurd hd (by decide)
+      by_cases h1 : hasDupLower (r.allowed.getD []) = true
+      · simp [h1] at h
+      · by_cases h2 : hasDupLower (r.denied.getD []) = true
+        · simp [h1, h2] at h
+        · by_cases h3 : r.minTTL.getD 0 < 0
+          · simp [h1, h2, h3] at h
+          · by_cases h4 : r.maxTTL.getD 0 < 0
+            · simp [h1, h2, h3, h4] at h
+            · simp only [h1, h2, h3, h4, Bool.false_eq_true, if_false] at h
+              split at h
+              · simp at h
+              · simp only [Except.ok.injEq] at h
+                subst h
+                have hb := capLoop_no_deny caps 0 bits hc (by decide)
+                have hka := (hasDupLower_false_iff _).mp (by simpa using h1)
+                have hkd := (hasDupLower_false_iff _).mp (by simpa using h2)
+                refine ⟨?_, nodup_lowerKeys _ hka, nodup_lowerKeys _ hkd, by simp only; omega, by simp only; omega⟩
+                intro hd
+                unfold isDeny at hd
+                simp only at hd
+                rw [hb] at hd
+                exact absurd hd (by decide)
 
-/-- a stanza accepted by `parsePaths` is well-formed if its wrapping-TTL bounds are not negative (and its parameter
-maps have distinct keys after lower-casing, which a decoded HCL object has unless two keys differ only in case) -/
-theorem parseRule_wf (r : SrcRule) (pr : PathRule) (h : parseRule r = .ok pr)
-    (hmin : 0 ≤ r.minTTL.getD 0) (hmax : 0 ≤ r.maxTTL.getD 0)
-    (hka : ((r.allowed.getD []).map fun kv => lower kv.1).Nodup)
-    (hkd : ((r.denied.getD []).map fun kv => lower kv.1).Nodup) : WF pr.perms := by
+theorem parseRule_perms (r : SrcRule) (pr : PathRule) (h : parseRule r = .ok pr) :
+    ∃ caps, legacyCaps r = .ok caps ∧ parsePerms r caps = .ok pr.perms := by
   unfold parseRule at h
   simp only at h
   split at h
@@ -343,7 +353,118 @@ theorem parseRule_wf (r : SrcRule) (pr : PathRule) (h : parseRule r = .ok pr)
         rw [hp] at h
         simp only [Except.ok.injEq] at h
         subst h
-        exact parsePerms_wf r caps perms hp hmin hmax hka hkd
+        exact ⟨caps, rfl, hp⟩
+
+theorem parseRule_wf (r : SrcRule) (pr : PathRule) (h : parseRule r = .ok pr) : WF pr.perms := by
+  obtain ⟨caps, _, hp⟩ := parseRule_perms r pr h
+  exact parsePerms_wf r caps pr.perms hp
+
+theorem parseRules_wf (rs : List SrcRule) (prs : List PathRule) (h : parseRules rs = .ok prs) :
+    ∀ pr ∈ prs, WF pr.perms := by
+  induction rs generalizing prs with
+  | nil => simp [parseRules] at h; subst h; simp
+  | cons r rs ih =>
+    unfold parseRules at h
+    cases h1 : parseRule r with
+    | error e => rw [h1] at h; simp at h
+    | ok pr =>
+      rw [h1] at h
+      simp only at h
+      cases h2 : parseRules rs with
+      | error e => rw [h2] at h; simp at h
+      | ok prs' =>
+        rw [h2] at h
+        simp only [Except.ok.injEq] at h
+        subst h
+        intro q hq
+        rcases List.mem_cons.mp hq with rfl | hq
+        · exact parseRule_wf r _ h1
+        · exact ih prs' h2 q hq
+
+/-- a policy is the output of `parsePaths` for some stanza list -/
+def Parsed (p : Policy) : Prop := ∃ rs, parsePolicy p.name rs = .ok p
+
+theorem parsed_wf (p : Policy) (h : Parsed p) : ∀ pr ∈ p.paths, WF pr.perms := by
+  obtain ⟨rs, h⟩ := h
+  unfold parsePolicy at h
+  cases h1 : parseRules rs with
+  | error e => rw [h1] at h; simp at h
+  | ok prs =>
+    rw [h1] at h
+    simp only [Except.ok.injEq] at h
+    rw [← h]
+    exact parseRules_wf rs prs h1
+
+theorem wfRules_of_parsed (ps : List (Option Policy)) (h : ∀ p, some p ∈ ps → Parsed p) :
+    wfRules (rulesOf ps) = true := by
+  unfold wfRules rulesOf
+  rw [List.all_eq_true]
+  intro r hr
+  rw [List.mem_flatMap] at hr
+  obtain ⟨p, hp, hrp⟩ := hr
+  cases p with
+  | none => simp at hrp
+  | some p => exact (wfPerms_iff _).mpr (parsed_wf p (h p hp) r hrp)
+
+/-- re-parsing gives the same stanzas: a stanza whose parse could depend on the iteration order is refused -/
+theorem stanzaStable_true (r : SrcRule) : stanzaStable r = true := by
+  unfold stanzaStable
+  cases h : parseRule r with
+  | error e => rfl
+  | ok pr =>
+    simp only
+    obtain ⟨caps, _, hp⟩ := parseRule_perms r pr h
+    unfold parsePerms at hp
+    cases hc : capLoop caps 0 with
+    | error e => rw [hc] at hp; simp at hp
+    | ok v =>
+      rw [hc] at hp
+      cases v with
+      | none =>
+        simp only [Except.ok.injEq] at hp
+        rw [← hp]
+        have : denyBits.testBit denyI = true := by decide
+        simp [this]
+      | some bits =>
+        simp only at hp
+        have stable_of_nodup : ∀ m : PMap, hasDupLower m = false → pmStable m = true := by
+          intro m hm
+          have hn := (hasDupLower_false_iff m).mp hm
+          unfold pmStable
+          rw [List.all_eq_true]
+          intro kv hkv
+          rw [List.all_eq_true]
+          intro kv' hkv'
+          by_cases hl : lower kv.1 = lower kv'.1
+          · -- equal lower-cased names in a duplicate-free list: the same entry
+            have : kv = kv' := by
+              clear hm hp
+              induction m with
+              | nil => simp at hkv
+              | cons x xs ih =>
+                simp only [List.map_cons, List.nodup_cons] at hn
+                rcases List.mem_cons.mp hkv with e1 | m1
+                · rcases List.mem_cons.mp hkv' with e2 | m2
+                  · rw [e1, e2]
+                  · exfalso; apply hn.1; rw [← e1, hl]; exact List.mem_map.mpr ⟨kv', m2, rfl⟩
+                · rcases List.mem_cons.mp hkv' with e2 | m2
+                  · exfalso; apply hn.1; rw [← e2, ← hl]; exact List.mem_map.mpr ⟨kv, m1, rfl⟩
+                  · exact ih hn.2 m1 m2
+            subst this
+            simp
+          · simp [hl]
+        by_cases h1 : hasDupLower (r.allowed.getD []) = true
+        · simp [h1] at hp
+        · by_cases h2 : hasDupLower (r.denied.getD []) = true
+          · simp [h1, h2] at hp
+          · rw [stable_of_nodup _ (by simpa using h1), stable_of_nodup _ (by simpa using h2)]
+            simp
+
+theorem parseStable_true (rs : List SrcRule) : parseStable rs = true := by
+  unfold parseStable
+  split
+  · rfl
+  · rw [List.all_eq_true]; intro r _; exact stanzaStable_true r
 
 /-! ### the parse does not depend on Go's map iteration order, unless two parameter names differ only in case -/
 
@@ -397,5 +518,91 @@ theorem lowerKeys_perm (m m' : PMap) (hp : m.Perm m') (hn : (m.map fun kv => low
   apply lookup_perm
   · exact hp.map _
   · exact nodup_lowerKeys m hn
+
+/-! ### the whole stanza parse is independent of Go's map iteration order (F21 repaired) -/
+
+/-- equality of the parsed permissions as Go values: maps are compared by lookup (a Go map has no entry order) -/
+def permsEquiv (p p' : Perms) : Prop :=
+  p.caps = p'.caps ∧ p.minTTL = p'.minTTL ∧ p.maxTTL = p'.maxTTL ∧ p.required = p'.required ∧ p.pag = p'.pag ∧
+    (∀ k, p.allowed.lookup k = p'.allowed.lookup k) ∧ (∀ k, p.denied.lookup k = p'.denied.lookup k)
+
+def ruleEquiv (p p' : PathRule) : Prop :=
+  p.path = p'.path ∧ p.isPrefix = p'.isPrefix ∧ p.hasSW = p'.hasSW ∧ permsEquiv p.perms p'.perms
+
+def exceptRel {α : Type} (R : α → α → Prop) : Except ParseErr α → Except ParseErr α → Prop
+  | .error e, .error e' => e = e'
+  | .ok a, .ok b => R a b
+  | _, _ => False
+
+/-- `r'` is the stanza `r` with the entries of its parameter objects enumerated in another order -/
+structure Reordered (r r' : SrcRule) : Prop where
+  path : r'.path = r.path
+  caps : r'.caps = r.caps
+  legacy : r'.legacy = r.legacy
+  minTTL : r'.minTTL = r.minTTL
+  maxTTL : r'.maxTTL = r.maxTTL
+  required : r'.required = r.required
+  pag : r'.pag = r.pag
+  allowed : (r.allowed.getD []).Perm (r'.allowed.getD [])
+  denied : (r.denied.getD []).Perm (r'.denied.getD [])
+
+theorem hasDupLower_perm (m m' : PMap) (h : m.Perm m') : hasDupLower m = hasDupLower m' := by
+  unfold hasDupLower
+  have : (m.map fun kv => lower kv.1).Nodup ↔ (m'.map fun kv => lower kv.1).Nodup := (h.map _).nodup_iff
+  simp [this]
+
+theorem parsePerms_reordered (r r' : SrcRule) (h : Reordered r r') (caps : List String) :
+    exceptRel permsEquiv (parsePerms r caps) (parsePerms r' caps) := by
+  unfold parsePerms
+  rw [h.minTTL, h.maxTTL, h.required, h.pag, ← hasDupLower_perm _ _ h.allowed, ← hasDupLower_perm _ _ h.denied]
+  cases capLoop caps 0 with
+  | error e => exact rfl
+  | ok v =>
+    cases v with
+    | none => exact ⟨rfl, rfl, rfl, rfl, rfl, fun _ => rfl, fun _ => rfl⟩
+    | some bits =>
+      simp only
+      by_cases h1 : hasDupLower (r.allowed.getD []) = true
+      · simp only [h1, if_true]; exact rfl
+      · by_cases h2 : hasDupLower (r.denied.getD []) = true
+        · simp only [h1, h2, if_true, Bool.false_eq_true, if_false]; exact rfl
+        · simp only [h1, h2, Bool.false_eq_true, if_false]
+          split
+          · exact rfl
+          · split
+            · exact rfl
+            · split
+              · exact rfl
+              · refine ⟨rfl, rfl, rfl, rfl, rfl, ?_, ?_⟩
+                · intro k
+                  exact lowerKeys_perm _ _ h.allowed ((hasDupLower_false_iff _).mp (by simpa using h1)) k
+                · intro k
+                  exact lowerKeys_perm _ _ h.denied ((hasDupLower_false_iff _).mp (by simpa using h2)) k
+
+theorem legacyCaps_reordered (r r' : SrcRule) (h : Reordered r r') : legacyCaps r' = legacyCaps r := by
+  unfold legacyCaps
+  rw [h.legacy, h.caps]
+
+theorem parseRule_reordered (r r' : SrcRule) (h : Reordered r r') :
+    exceptRel ruleEquiv (parseRule r) (parseRule r') := by
+  unfold parseRule
+  rw [h.path, legacyCaps_reordered r r' h]
+  simp only
+  split
+  · exact rfl
+  · cases legacyCaps r with
+    | error e => exact rfl
+    | ok caps =>
+      simp only
+      have := parsePerms_reordered r r' h caps
+      cases h1 : parsePerms r caps with
+      | error e =>
+        cases h2 : parsePerms r' caps with
+        | error e' => rw [h1, h2] at this; exact this
+        | ok p' => rw [h1, h2] at this; exact absurd this id
+      | ok p =>
+        cases h2 : parsePerms r' caps with
+        | error e' => rw [h1, h2] at this; exact absurd this id
+        | ok p' => rw [h1, h2] at this; exact ⟨rfl, rfl, rfl, this⟩
 
 end Obao.ACLProofs
